@@ -102,6 +102,12 @@ func TempDir(dir, pattern string) (string, error) {
 	if dir == "" {
 		dir = os.TempDir()
 	}
+	if s.passive.Load() == 0 {
+		// making a directory is a system call: a scheduling point like every
+		// other call into storage (a check-then-create on shared state can be
+		// interleaved here, as it can in the real process)
+		Yield("simrt:mkdirtemp")
+	}
 	for {
 		p := filepath.Join(dir, fmt.Sprintf("%s%06d", pattern, s.tmpn.Add(1)))
 		if err := os.Mkdir(p, 0700); err == nil {
